@@ -120,7 +120,10 @@ Definition fixmask (q : qcase) : N :=
             [0; 1; 2; 3; 4; 5; 6; 7; 8] 0.
 
 (* is the case inside the domain of C03_select_is_solutions_partial? *)
-Definition in_D3 (q : qcase) : N := if D3 (q_cfg q) (q_graphs q) (q_clauses q) (q_outs q) then 1 else 0.
+(* 2 = inside D3 (C03_select_is_solutions_partial), 1 = inside D10 only (C10_select_is_left_join_partial), 0 = outside *)
+Definition in_D3 (q : qcase) : N :=
+  if D3 (q_cfg q) (q_graphs q) (q_clauses q) (q_outs q) then 2
+  else if D10 (q_cfg q) (q_graphs q) (q_clauses q) (q_outs q) then 1 else 0.
 
 (* per case: (model agrees?, spec code, number of spec rows, mask of repairs that would close the gap to the spec, in D3?) *)
 Definition verdict (qo : qcase * obs) : N * N * N * N * N :=
